@@ -12,6 +12,22 @@ class MyLink(SymlinkNodeMixin):
             self.children = children
 
 
+# value tokens: the model treats attribute values as opaque tokens; a few tokens stand for Python values
+# that compare equal to each other (or are falsy / None) while being different objects of different types
+SPECIAL = {1: 1, 2: True, 3: 1.0, 4: None, 5: 0, 6: False, 7: ""}
+
+
+def val(t):
+    return SPECIAL.get(t, t)
+
+
+def tok(v):
+    for t, x in SPECIAL.items():
+        if type(x) is type(v) and x == v:
+            return t
+    return v if type(v) is int else -1
+
+
 def links_of(o):
     return (o.parent, tuple(o.children))
 
@@ -25,16 +41,16 @@ def run_case(c):
         k = op[0]
         try:
             if k == "get":
-                outs.append(["val", getattr(objs[op[1]], op[2])])
+                outs.append(["val", tok(getattr(objs[op[1]], op[2]))])
             elif k == "set":
-                setattr(objs[op[1]], op[2], op[3])
+                setattr(objs[op[1]], op[2], val(op[3]))
                 outs.append(["done"])
             elif k == "newlink":
                 cls = SymlinkNode if op[3] == "node" else MyLink
-                objs.append(cls(objs[op[1]], **dict(op[2])))
+                objs.append(cls(objs[op[1]], **{kk: val(vv) for kk, vv in op[2]}))
                 outs.append(["done"])
             elif k == "newplain":
-                objs.append(AnyNode(**dict(op[1])))
+                objs.append(AnyNode(**{kk: val(vv) for kk, vv in op[1]}))
                 outs.append(["done"])
             elif k == "move":
                 a, b = objs[op[1]], (None if op[2] is None else objs[op[2]])
